@@ -5,7 +5,8 @@
 //! families under `catch_unwind`; this binary contains (and therefore rustc compiled) every
 //! generated function. Here we (1) report every generation failure recorded in `GEN_FAILURES`,
 //! (2) instantiate and execute every generated single-/two-location program on all small input
-//! histories and require that the dataflow runs without panicking, and count what was covered.
+//! histories; a run-time panic is printed / stored as an OBSERVATION only (the statement obliges
+//! "partitions and compiles", not crash-freedom on later ticks), and count what was covered.
 use vf_explore::{Report, Stats, Value, catch, json, ncpu, par_map};
 
 use crate::c30::{ALPHA, ALPHA_B, batches};
@@ -23,31 +24,25 @@ fn histories2(nb: usize) -> Vec<Vec<(Vec<i32>, Vec<i32>)>> {
     vf_explore::combi::sequences(&pairs, nb)
 }
 
-fn smoke(p: &ProgInfo, nb: usize) -> Stats {
+/// Execute one generated program on every history; a panic is an OBSERVATION (the C41 statement
+/// only obliges "partitions and compiles"), never a violation. Returns the canonical observation
+/// (shortest failing prefix of the first failing history) if any execution panicked.
+fn smoke(p: &ProgInfo, nb: usize) -> (Stats, Option<Value>) {
     let mut st = Stats::new();
-    let mut first_bad = false;
+    let mut obs: Option<Value> = None;
+    let mut panics = 0u64;
     let mut one = |st: &mut Stats, input: Value, r: Result<Vec<Vec<i32>>, String>, minimal: &dyn Fn() -> Value| {
         st.eval();
         st.nontrivial(&(p.id, input.to_string()));
         st.outcome(&format!("{r:?}"));
         st.sample(|| json!({"program": p.id, "input": input.clone(), "output": format!("{r:?}")}));
         if let Err(e) = r {
-            if !first_bad {
-                first_bad = true;
-                // canonical case: the shortest prefix of the first failing history that still
-                // panics (this is also the re-execution of the failing case)
+            panics += 1;
+            if obs.is_none() {
                 let min = minimal();
-                if min.is_null() {
-                    println!("MACHINERY-ERROR: C41 {} {} panicked once and then passed", p.id, input);
-                    std::process::exit(2);
-                }
-                st.violation(
-                    format!("C41:run:{}:{}", p.id, min),
-                    format!("generated dataflow of {} panicked on {}: {}", p.id, min, e),
-                    json!({"kind": "run", "program": p.id, "input": min}),
-                );
-            } else {
-                st.violations_total += 1;
+                obs = Some(json!({"program": p.id, "family": p.family, "ops": p.ops,
+                                  "what": format!("generated dataflow panicked: {e}"),
+                                  "minimal_input": min, "first_failing_history": input}));
             }
         }
     };
@@ -83,7 +78,10 @@ fn smoke(p: &ProgInfo, nb: usize) -> Stats {
             }
         }
     }
-    st
+    if let Some(o) = obs.as_mut() {
+        o["panicking_histories"] = json!(panics);
+    }
+    (st, obs)
 }
 
 pub fn run(rep: &mut Report) {
@@ -94,8 +92,9 @@ pub fn run(rep: &mut Report) {
         run cases = (program, input history)".into();
     rep.explanation = "build.rs called the production generate_embedded on every program under catch_unwind; \
         a recorded failure (partition error, DFIR codegen error, any panic) is a violation; every generated \
-        function is compiled into this binary by rustc; each generated dataflow is then executed on every \
-        history of exactly N batches of <= 2 items and must not panic".into();
+        function is compiled into this binary by rustc (verdict = no generation failure + everything compiled); \
+        each generated dataflow is additionally executed on every history of exactly N batches of <= 2 items; a \
+        panic there is recorded as an OBSERVATION (bounds.observations), not as a violation".into();
     rep.assume("a rustc error in generated code aborts the build of this binary: the check driver then reports a build failure of the generated-program crate (classified as C41 by the lead's rule), not a verdict from here");
     rep.assume("type-incorrect terms are not in the (typed) grammar: every program is an ordinary Rust function that type-checks");
     rep.assume("simulator builder (flow.sim().compiled()) is NOT exercised by this engine");
@@ -134,8 +133,29 @@ pub fn run(rep: &mut Report) {
     }
     rep.section("generate_and_compile", st);
 
-    // (2) execution smoke test
-    let st = par_map(PROGS.len(), ncpu().min(16), |i| smoke(&PROGS[i], nb));
+    // (2) execution: every generated program is run on every small history. Panics are recorded
+    // as OBSERVATIONS only (outside what the C41 statement obliges).
+    let observations = std::sync::Mutex::new(Vec::<Value>::new());
+    let st = par_map(PROGS.len(), ncpu().min(16), |i| {
+        let (st, obs) = smoke(&PROGS[i], nb);
+        if let Some(o) = obs {
+            observations.lock().unwrap().push(o);
+        }
+        st
+    });
+    let mut observations = observations.into_inner().unwrap();
+    observations.sort_by_key(|o| o["program"].as_str().unwrap_or("").to_string());
+    for o in &observations {
+        println!(
+            "OBSERVATION: property=C41 {} {} (minimal input {}, {} panicking histories)",
+            o["program"].as_str().unwrap_or("?"),
+            o["what"].as_str().unwrap_or("?"),
+            o["minimal_input"],
+            o["panicking_histories"]
+        );
+    }
+    rep.bound("observations_count", observations.len());
+    rep.bound("observations", json!(observations));
     rep.section("execute_generated_dataflows", st);
     rep.min_outcomes = 2;
 }
